@@ -6,7 +6,7 @@
    unknown address in choose_piece_index, copy_from_slice length mismatch) is reachable for commands the tasks send
    (`sendable`, discharged for the composition in PairProofs/this file). *)
 From Rdest Require Import Base BaseProofs Consts Wire WireProofs Manager Handler MgrProofs HandlerProofs PairProofs.
-From Coq Require Import ZifyBool ZifyN ZifyNat.
+From Coq Require Import ZifyBool ZifyN ZifyNat Permutation.
 Open Scope N_scope.
 
 Lemma to_vec_length bs n v : to_vec bs n = Some v -> length v = N.to_nat n.
@@ -248,6 +248,129 @@ Proof.
     + destruct (all_have _); [discriminate|]. destruct (m_candidates m); [discriminate|]. destruct (spawn_peer _); discriminate.
 Qed.
 
+(* ---- the manager handles the command: neither a panic nor an error ------------------------------------------ *)
+(* Session::run applies `.expect("Can't handle command")` to handle_peer_cmd's Result: an `Err` (PeerNotFound, a
+   bitfield of the wrong size) ends the manager exactly like a panic does.  `deliverable` adds to `sendable` what rules
+   the errors out: the sender is a connected peer, and a relayed bitfield has passed Bitfield::validate. *)
+Definition deliverable (m : mgr) (c : cmd) : Prop :=
+  sendable m c /\
+  match c with
+  | CKill _ => True
+  | CBitfield a bits => pget (m_peers m) a <> None /\ bitfield_validate bits (pieces_n m) = true
+  | _ => pget (m_peers m) (cmd_addr c) <> None
+  end.
+
+Lemma bind_not_err {A B} (r : result A) (k : A -> result B) :
+  (forall x, r = Ok x -> k x <> Err /\ k x <> OutOfFuel) -> r <> Err -> r <> OutOfFuel ->
+  bind r k <> Err /\ bind r k <> OutOfFuel.
+Proof. intros Hk H1 H2. destruct r as [x| | |]; cbn [bind]; try contradiction; [apply Hk; reflexivity | split; discriminate]. Qed.
+
+Lemma upd_status_kind st i f : upd_status st i f <> Err /\ upd_status st i f <> OutOfFuel.
+Proof. unfold upd_status. destruct (nthN st i); split; discriminate. Qed.
+Lemma plen_kind m i : plen_of m i <> Err /\ plen_of m i <> OutOfFuel.
+Proof. unfold plen_of. destruct (nthN (m_plens m) i); split; discriminate. Qed.
+
+Lemma php_kind m a p pk : peer_handle_piece m a p pk <> Err /\ peer_handle_piece m a p pk <> OutOfFuel.
+Proof.
+  unfold peer_handle_piece, out. destruct pk as [c|]; [|split; discriminate].
+  destruct (Peer_no_reserve_when_choked && p_choked p); [split; discriminate|].
+  apply bind_not_err; try apply upd_status_kind. intros st _.
+  destruct (p_choked p); [split; discriminate|].
+  apply bind_not_err; try apply plen_kind. intros l _. split; discriminate.
+Qed.
+
+Lemma kill_peer_kind m a : kill_peer m a <> Err /\ kill_peer m a <> OutOfFuel.
+Proof.
+  unfold kill_peer. destruct (pget (m_peers m) a) as [p|]; [|split; discriminate].
+  apply bind_not_err; [intros st _; split; discriminate| |];
+    (destruct (p_piece_index p) as [i|]; [destruct (nthN (m_status m) i)|]; discriminate).
+Qed.
+
+Lemma mstep_kind m c pick : deliverable m c -> mstep m c pick <> Err /\ mstep m c pick <> OutOfFuel.
+Proof.
+  intros [_ Hd]. destruct c as [a id|a|a|a|a|a i|a bits|a i|a|a|a d u|a]; cbn [mstep cmd_addr] in *; unfold out.
+  - destruct (pget (m_peers m) a); [split; discriminate | contradiction].
+  - destruct (pget (m_peers m) a) as [p|]; [|contradiction].
+    apply bind_not_err; [intros st _; split; discriminate| |];
+      (destruct (p_piece_index p); [apply upd_status_kind | discriminate]).
+  - destruct (pget (m_peers m) a) as [p|]; [|contradiction]. destruct pick as [c|]; [|split; discriminate].
+    apply bind_not_err; try apply upd_status_kind. intros st _.
+    apply bind_not_err; try apply plen_kind. intros l _. split; discriminate.
+  - destruct (pget (m_peers m) a); [split; discriminate | contradiction].
+  - destruct (pget (m_peers m) a); [split; discriminate | contradiction].
+  - destruct (pget (m_peers m) a) as [p|]; [|contradiction].
+    destruct (len (p_pieces p) <=? i); [split; discriminate|].
+    destruct (nthN (m_status m) i) as [s0|]; [|split; discriminate].
+    destruct (is_missing s0 && negb (p_am_interested p)); [|split; discriminate].
+    destruct (negb (p_choked p) && _); [|split; discriminate].
+    apply bind_not_err; try apply plen_kind. intros l _. split; discriminate.
+  - destruct Hd as [Hp Hv]. destruct (pget (m_peers m) a) as [p|]; [|contradiction].
+    unfold to_vec. unfold bitfield_validate in Hv. rewrite Hv.
+    destruct (negb _); split; discriminate.
+  - destruct (pget (m_peers m) a) as [p|]; [|contradiction].
+    destruct (p_am_choked p); [split; discriminate|]. destruct (pieces_n m <=? i); [split; discriminate|].
+    destruct (nthN (m_status m) i) as [s0|]; [|split; discriminate]. destruct (is_have s0); split; discriminate.
+  - destruct (pget (m_peers m) a) as [p|]; [|contradiction].
+    destruct (p_piece_index p) as [i|]; [|split; discriminate].
+    destruct (nthN (m_status m) i); [|split; discriminate].
+    apply bind_not_err; try apply php_kind. intros [[[m2 rep] bc] sp] _. split; discriminate.
+  - destruct (pget (m_peers m) a) as [p|]; [|contradiction].
+    destruct (p_piece_index p) as [i|]; [|split; discriminate].
+    apply bind_not_err; try apply upd_status_kind. intros st _. apply php_kind.
+  - destruct (pget (m_peers m) a); [split; discriminate | contradiction].
+  - apply bind_not_err; try apply kill_peer_kind. intros m1 _.
+    destruct (all_have (m_status m1)); [split; discriminate|].
+    destruct (m_candidates m1); [split; discriminate|]. destruct (spawn_peer m1). split; discriminate.
+Qed.
+
+(* the full statement: on every command a task can send, in a well-formed state and with a chooser answer in range,
+   handle_peer_cmd returns Ok -- the manager neither panics nor fails its `.expect` *)
+Theorem manager_handles m c pick : WFm m -> deliverable m c -> valid_pick m pick ->
+  exists m' rep bc sp, mstep m c pick = Ok (m', rep, bc, sp).
+Proof.
+  intros HW Hd Hv. pose proof (no_manager_panic m c pick HW (proj1 Hd) Hv) as NP.
+  destruct (mstep_kind m c pick Hd) as [NE NF].
+  destruct (mstep m c pick) as [[[[m' rep] bc] sp]| | |]; try contradiction. exists m', rep, bc, sp. reflexivity.
+Qed.
+
+(* the rotation timer (`timeout_change_conn_state().await.expect(..)`): with rate lists and optimistic picks drawn from
+   the connected peers -- the real wrapper builds both from the keys of `peers` -- change_conn_state returns Ok *)
+Lemma pset_keeps_present ps a q b : pget ps b <> None -> pget (pset ps a q) b <> None.
+Proof.
+  intros H. destruct (N.eq_dec a b) as [->|Hn]; [rewrite pget_pset_same; discriminate | rewrite pget_pset_other by exact Hn; exact H].
+Qed.
+Lemma rotate_go_ok new_opt : forall order ps count flips, (forall a, In a order -> pget ps a <> None) ->
+  exists ps' fl, rotate_go ps order new_opt count flips = Ok (ps', fl) /\ (forall b, pget ps b <> None -> pget ps' b <> None).
+Proof.
+  induction order as [|a rest IH]; intros ps count flips H; cbn [rotate_go].
+  - exists ps, flips. split; [reflexivity | auto].
+  - destruct (pget ps a) as [p|] eqn:Ep; [|exfalso; apply (H a); [left; reflexivity | exact Ep]].
+    destruct (if count <? MAX_UNCHOKED then _ else _) as [[am cnt] fl0].
+    edestruct (IH (pset ps a (set_am_choked p am (match new_opt with [] => p_optimistic p | _ => false end))) cnt (flips ++ fl0))
+      as (ps' & fl & E & K).
+    + intros b Hb. apply pset_keeps_present. apply H. right. exact Hb.
+    + exists ps', fl. split; [exact E|]. intros b Hb. apply K. apply pset_keeps_present. exact Hb.
+Qed.
+Lemma set_optimistic_ok : forall new_opt ps flips, (forall a, In a new_opt -> pget ps a <> None) ->
+  exists ps' fl, set_optimistic ps new_opt flips = Ok (ps', fl).
+Proof.
+  induction new_opt as [|a rest IH]; intros ps flips H; cbn [set_optimistic].
+  - exists ps, flips. reflexivity.
+  - destruct (pget ps a) as [p|] eqn:Ep; [|exfalso; apply (H a); [left; reflexivity | exact Ep]].
+    apply IH. intros b Hb. apply pset_keeps_present. apply H. right. exact Hb.
+Qed.
+Theorem rotation_handles m rates new_opt :
+  (forall a, In a (map fst rates) -> pget (m_peers m) a <> None) -> (forall a, In a new_opt -> pget (m_peers m) a <> None) ->
+  exists m' fl, change_conn_state m rates new_opt = Ok (m', fl).
+Proof.
+  intros Hr Ho. unfold change_conn_state.
+  destruct (rotate_go_ok new_opt (map fst (sort_rates rates)) (m_peers m) 0 []) as (ps1 & fl1 & E1 & K1).
+  { intros a Ha. apply Hr. eapply Permutation_in; [apply Permutation_map; apply sort_rates_perm | exact Ha]. }
+  rewrite E1. cbn [bind fst snd].
+  destruct (set_optimistic_ok new_opt ps1 fl1) as (ps2 & fl2 & E2); [intros a Ha; apply K1, Ho, Ha|].
+  rewrite E2. cbn [bind fst snd]. eexists _, _. reflexivity.
+Qed.
+
 (* ---- WFm holds at the start and under everything else the manager does --------------------------------- *)
 Lemma WF_init st plens : length st = length plens -> WFm (mkmgr st [] [] 0 false plens).
 Proof. intros H. split; [exact H | constructor]. Qed.
@@ -313,6 +436,7 @@ Section Sendable.
     match x with
     | ACmd (KHave i) => i <? c_pieces_num cf
     | ACmd KPieceDone | ACmd KPieceCancel => match h_rx s with Some _ => true | None => false end
+    | ACmd (KBitfield bs) => bitfield_validate bs (c_pieces_num cf)
     | _ => true
     end.
 
@@ -355,8 +479,9 @@ Section Sendable.
         destruct r as [[]|]; cbn [acts_of forallb cact_ok]; rewrite ?Hi; try reflexivity.
         match goal with |- context [new_piece_request ?a ?b ?c ?d] => destruct (new_piece_request a b c d) as [rx a0] eqn:E end.
         cbn [acts_of app forallb cact_ok]. rewrite Hi. apply (npr_cok s _ _ _ _ _ E).
-      + destruct (negb (bitfield_validate bs (c_pieces_num cf))); [reflexivity|].
-        destruct r as [[]|]; cbn [acts_of]; try reflexivity. destruct with_unchoke, am_interested; reflexivity.
+      + destruct (negb (bitfield_validate bs (c_pieces_num cf))) eqn:Eb; [reflexivity|]. apply negb_false_iff in Eb.
+        destruct r as [[]|]; cbn [acts_of forallb cact_ok app]; rewrite ?Eb; try reflexivity.
+        destruct with_unchoke, am_interested; cbn [acts_of forallb cact_ok app]; rewrite ?Eb; reflexivity.
       + unfold handle_request.
         assert (Hpre : forallb (cact_ok s) (if need_ask (set_ka s 0) ri then [ACmd (KRequest ri)] else []) = true)
           by (destruct (need_ask (set_ka s 0) ri); reflexivity).
@@ -416,5 +541,23 @@ Section Sendable.
       rewrite Vi. destruct (h_rx s); [discriminate | discriminate HC].
     - intros q Eq. rewrite Ep in Eq. injection Eq as <-. pose proof (HP p Ep) as V. unfold pview, hview in V. injection V as Vi _.
       rewrite Vi. destruct (h_rx s); [discriminate | discriminate HC].
+  Qed.
+
+  (* ... and deliverable: the sender is connected (pair_reachable) and a relayed bitfield was validated by the task
+     against the same piece count.  With manager_handles: the manager returns Ok on it. *)
+  Theorem own_first_command_deliverable ovf a m s ev r k rest :
+    creach sha1 cf disk ovf a m s -> c_pieces_num cf = pieces_n m ->
+    cmds_of (acts_of (hstep sha1 cf disk ovf s ev r)) = k :: rest -> deliverable m (to_cmd a k).
+  Proof.
+    intros HR Hn Hk. split; [eapply own_first_command_sendable; eassumption|].
+    destruct (pair_reachable sha1 cf disk ovf a m s HR) as [_ [p Ep]].
+    pose proof (commands_ok ovf s ev r) as HC.
+    assert (Hin : In (ACmd k) (acts_of (hstep sha1 cf disk ovf s ev r))).
+    { assert (I0 : In k (cmds_of (acts_of (hstep sha1 cf disk ovf s ev r)))) by (rewrite Hk; left; reflexivity).
+      unfold cmds_of in I0. apply in_flat_map in I0. destruct I0 as (x & Hx & Hkx). destruct x; try contradiction.
+      destruct Hkx as [->|[]]. exact Hx. }
+    rewrite forallb_forall in HC. specialize (HC _ Hin).
+    destruct k; cbn [to_cmd cmd_addr cact_ok] in *; try (rewrite Ep; discriminate).
+    split; [rewrite Ep; discriminate | rewrite <- Hn; exact HC].
   Qed.
 End Sendable.
